@@ -37,6 +37,22 @@ pub enum FTy {
     /// an earlier type of the batch (index taken modulo the number of earlier types)
     Ref(u8),
     OptRef(u8),
+    I8,
+    I16,
+    I32,
+    U16,
+    U64,
+    F32,
+    /// `[u8; 3]`
+    Arr3,
+    /// a generic helper type of the generated program over a simple argument — which: 0 `ShippingOption<A>` (a struct whose
+    /// name ends in "Option"), 1 `Timed<A>` (a struct), 2 `PickOption<A>` (a newtype); arg: 0 String, 1 u32, else an earlier type
+    Generic { which: u8, arg: u8 },
+    OptGeneric { which: u8, arg: u8 },
+}
+fn generic_src(which: u8, arg: u8) -> String {
+    let a = match arg { 0 => "String".to_string(), 1 => "u32".to_string(), k => format!("T{}", k - 2) };
+    format!("{}<{a}>", ["ShippingOption", "Timed", "PickOption"][which as usize % 3])
 }
 
 #[derive(Debug, Clone, Serialize, Deserialize, PartialEq)]
@@ -61,6 +77,8 @@ pub enum VKind {
     Struct(Vec<FieldDef>),
     /// `V()`: a tuple variant without elements (serde writes `[]`)
     EmptyTuple,
+    /// `V(A, B[, C])`, one element possibly `#[serde(skip)]` (serde writes the others as an array)
+    Tuple { elems: Vec<FTy>, skipped: Option<u8> },
 }
 #[derive(Debug, Clone, Serialize, Deserialize, PartialEq)]
 pub struct VariantDef {
@@ -90,7 +108,13 @@ pub enum Body {
         skip_de: Vec<u8>,
     },
     /// a tuple struct of 3 elements one of which is `#[serde(skip)]` (serde writes the other two)
-    TupleSkip { elems: Vec<FTy>, skipped: u8 },
+    TupleSkip {
+        elems: Vec<FTy>,
+        skipped: u8,
+        /// a second skipped element (of three): serde writes the remaining one — as an array of one
+        #[serde(default)]
+        also: Option<u8>,
+    },
     Enum { variants: Vec<VariantDef>, tagging: Tagging, rename_all: Option<u8>, rename_all_fields: Option<u8> },
 }
 
@@ -135,9 +159,13 @@ fn fix_fields(fields: &mut Vec<FieldDef>, earlier: &[TypeDef]) {
                     *k %= earlier.len() as u8
                 }
             }
+            FTy::Generic { which, arg } | FTy::OptGeneric { which, arg } => {
+                *which %= 3;
+                *arg = if earlier.is_empty() { *arg % 2 } else { *arg % (2 + earlier.len() as u8) };
+            }
             _ => {}
         }
-        let is_opt = matches!(f.ty, FTy::OptStr | FTy::OptU32 | FTy::OptVecU32 | FTy::OptRef(_));
+        let is_opt = matches!(f.ty, FTy::OptStr | FTy::OptU32 | FTy::OptVecU32 | FTy::OptRef(_) | FTy::OptGeneric { .. });
         if !is_opt {
             f.skip_if_none = false
         }
@@ -164,7 +192,7 @@ fn fix_fields(fields: &mut Vec<FieldDef>, earlier: &[TypeDef]) {
             f.skip_if_empty = false;
         }
         // `default` needs Default for the type: not for references
-        if matches!(f.ty, FTy::Ref(_)) {
+        if matches!(f.ty, FTy::Ref(_) | FTy::Generic { .. }) {
             f.default = false
         }
     }
@@ -177,6 +205,7 @@ fn fix_fty(t: &mut FTy, earlier: &[TypeDef]) {
         FTy::OptU32 => *t = FTy::U32,
         FTy::OptVecU32 => *t = FTy::VecU32,
         FTy::OptRef(k) => *t = FTy::Ref(*k),
+        FTy::OptGeneric { which, arg } => *t = FTy::Generic { which: *which, arg: *arg },
         _ => {}
     }
     match t {
@@ -186,6 +215,10 @@ fn fix_fty(t: &mut FTy, earlier: &[TypeDef]) {
             } else {
                 *k %= earlier.len() as u8
             }
+        }
+        FTy::Generic { which, arg } | FTy::OptGeneric { which, arg } => {
+            *which %= 3;
+            *arg = if earlier.is_empty() { *arg % 2 } else { *arg % (2 + earlier.len() as u8) };
         }
         _ => {}
     }
@@ -218,18 +251,27 @@ pub fn normalise(types: &mut Vec<TypeDef>) {
                     fix_fty(f, earlier)
                 }
             }
-            Body::TupleSkip { elems, skipped } => {
+            Body::TupleSkip { elems, skipped, also } => {
                 elems.truncate(3);
-                while elems.len() < 3 {
+                while elems.len() < 2 {
                     elems.push(FTy::U32)
                 }
                 for f in elems.iter_mut() {
                     fix_fty(f, earlier)
                 }
-                *skipped %= 3;
-                // the skipped element is filled in by Default when reading
-                if matches!(elems[*skipped as usize], FTy::Ref(_)) {
-                    elems[*skipped as usize] = FTy::U32
+                let n = elems.len() as u8;
+                *skipped %= n;
+                if let Some(a) = also {
+                    *a %= n;
+                    if *a == *skipped || n < 3 {
+                        *also = None
+                    }
+                }
+                // a skipped element is filled in by Default when reading
+                for k in [Some(*skipped), *also].into_iter().flatten() {
+                    if matches!(elems[k as usize], FTy::Ref(_) | FTy::Generic { .. } | FTy::Arr3) {
+                        elems[k as usize] = FTy::U32
+                    }
                 }
             }
             Body::Unit => {}
@@ -295,6 +337,24 @@ pub fn normalise(types: &mut Vec<TypeDef>) {
                                 v.kind = VKind::Unit
                             }
                         }
+                        VKind::Tuple { elems, skipped } => {
+                            elems.truncate(3);
+                            while elems.len() < 2 {
+                                elems.push(FTy::U32)
+                            }
+                            for f in elems.iter_mut() {
+                                fix_fty(f, earlier)
+                            }
+                            if let Some(k) = skipped {
+                                *k %= elems.len() as u8;
+                                if matches!(elems[*k as usize], FTy::Ref(_) | FTy::Generic { .. } | FTy::Arr3) {
+                                    elems[*k as usize] = FTy::U32
+                                }
+                            }
+                            if *tagging == Tagging::Internal {
+                                v.kind = VKind::Unit
+                            }
+                        }
                     }
                 }
                 if variants.is_empty() {
@@ -330,6 +390,15 @@ fn fty_src(t: &FTy) -> String {
         FTy::OptVecU32 => "Option<Vec<u32>>".into(),
         FTy::Ref(k) => format!("T{k}"),
         FTy::OptRef(k) => format!("Option<T{k}>"),
+        FTy::I8 => "i8".into(),
+        FTy::I16 => "i16".into(),
+        FTy::I32 => "i32".into(),
+        FTy::U16 => "u16".into(),
+        FTy::U64 => "u64".into(),
+        FTy::F32 => "f32".into(),
+        FTy::Arr3 => "[u8; 3]".into(),
+        FTy::Generic { which, arg } => generic_src(*which, *arg),
+        FTy::OptGeneric { which, arg } => format!("Option<{}>", generic_src(*which, *arg)),
     }
 }
 
@@ -402,9 +471,9 @@ pub fn codegen(types: &[TypeDef], value_seed: u64) -> (String, Vec<(usize, usize
                 let _ = write!(s, "{derive}{comp}{attr}struct T{i}({});\n", fs.iter().map(fty_src).collect::<Vec<_>>().join(", "));
                 let _ = write!(s, "impl Gen for T{i} {{ fn gen(r: &mut Rng) -> Self {{ T{i}({}) }} }}\n", fs.iter().map(|_| "Gen::gen(r)").collect::<Vec<_>>().join(", "));
             }
-            Body::TupleSkip { elems, skipped } => {
+            Body::TupleSkip { elems, skipped, also } => {
                 let attr = if cont.is_empty() { String::new() } else { format!("#[serde({})]\n", cont.join(", ")) };
-                let _ = write!(s, "{derive}{comp}{attr}struct T{i}({});\n", elems.iter().enumerate().map(|(k, f)| format!("{}{}", if k == *skipped as usize { "#[serde(skip)] " } else { "" }, fty_src(f))).collect::<Vec<_>>().join(", "));
+                let _ = write!(s, "{derive}{comp}{attr}struct T{i}({});\n", elems.iter().enumerate().map(|(k, f)| format!("{}{}", if k == *skipped as usize || Some(k as u8) == *also { "#[serde(skip)] " } else { "" }, fty_src(f))).collect::<Vec<_>>().join(", "));
                 let _ = write!(s, "impl Gen for T{i} {{ fn gen(r: &mut Rng) -> Self {{ T{i}({}) }} }}\n", elems.iter().map(|_| "Gen::gen(r)").collect::<Vec<_>>().join(", "));
             }
             Body::Unit => {
@@ -458,6 +527,10 @@ pub fn codegen(types: &[TypeDef], value_seed: u64) -> (String, Vec<(usize, usize
                             let _ = write!(vs, "    {ren}{name}(),\n");
                             let _ = write!(arms, "{k} => T{i}::{name}(), ");
                         }
+                        VKind::Tuple { elems, skipped } => {
+                            let _ = write!(vs, "    {ren}{name}({}),\n", elems.iter().enumerate().map(|(j, f)| format!("{}{}", if Some(j as u8) == *skipped { "#[serde(skip)] " } else { "" }, fty_src(f))).collect::<Vec<_>>().join(", "));
+                            let _ = write!(arms, "{k} => T{i}::{name}({}), ", elems.iter().map(|_| "Gen::gen(r)").collect::<Vec<_>>().join(", "));
+                        }
                     }
                 }
                 let _ = write!(s, "{derive}{comp}{attr}enum T{i} {{\n{vs}}}\n");
@@ -504,6 +577,23 @@ pub struct POut { out_a: u32, out_b: String }
 #[derive(Debug, Clone, PartialEq, Serialize, Deserialize, Schema)]
 pub struct PIn { in_only: Vec<String> }
 impl Gen for String { fn gen(r: &mut Rng) -> Self { if r.1 { ["a", "hello world", "ü/\"q\"", "0", "null"][r.pick(5)].to_string() } else { ["", "a", "hello world", "ü/\"q\"", "0", "null"][r.pick(6)].to_string() } } }
+/// generic helper types: a struct whose name ends in "Option", another struct, a newtype
+#[derive(Debug, Clone, PartialEq, Serialize, Deserialize, Schema)]
+pub struct ShippingOption<C: Schema> { carrier: C, days: u8 }
+#[derive(Debug, Clone, PartialEq, Serialize, Deserialize, Schema)]
+pub struct Timed<T: Schema> { value: T, at: u64 }
+#[derive(Debug, Clone, PartialEq, Serialize, Deserialize, Schema)]
+pub struct PickOption<T: Schema>(T);
+impl<T: Gen + Schema> Gen for ShippingOption<T> { fn gen(r: &mut Rng) -> Self { ShippingOption { carrier: T::gen(r), days: u8::gen(r) } } }
+impl<T: Gen + Schema> Gen for Timed<T> { fn gen(r: &mut Rng) -> Self { Timed { value: T::gen(r), at: u64::gen(r) } } }
+impl<T: Gen + Schema> Gen for PickOption<T> { fn gen(r: &mut Rng) -> Self { PickOption(T::gen(r)) } }
+impl Gen for i8 { fn gen(r: &mut Rng) -> Self { [0i8, -1, 1, i8::MIN, i8::MAX][r.pick(5)] } }
+impl Gen for i16 { fn gen(r: &mut Rng) -> Self { [0i16, -1, 300, i16::MIN, i16::MAX][r.pick(5)] } }
+impl Gen for i32 { fn gen(r: &mut Rng) -> Self { [0i32, -1, 70000, i32::MIN, i32::MAX][r.pick(5)] } }
+impl Gen for u16 { fn gen(r: &mut Rng) -> Self { [0u16, 1, 256, u16::MAX][r.pick(4)] } }
+impl Gen for u64 { fn gen(r: &mut Rng) -> Self { [0u64, 1, 1 << 40, u64::MAX][r.pick(4)] } }
+impl Gen for f32 { fn gen(r: &mut Rng) -> Self { [0.0f32, -1.5, 0.25, 3.0e10][r.pick(4)] } }
+impl Gen for [u8; 3] { fn gen(r: &mut Rng) -> Self { [u8::gen(r), u8::gen(r), u8::gen(r)] } }
 impl Gen for u8 { fn gen(r: &mut Rng) -> Self { [0u8, 1, 7, 255][r.pick(4)] } }
 impl Gen for u32 { fn gen(r: &mut Rng) -> Self { [0u32, 1, 42, u32::MAX][r.pick(4)] } }
 impl Gen for i64 { fn gen(r: &mut Rng) -> Self { [0i64, -1, 1 << 40, i64::MIN, i64::MAX][r.pick(5)] } }
@@ -562,8 +652,11 @@ fn field_features(f: &FieldDef, out: &mut BTreeSet<String>) {
     if f.flatten {
         out.insert("flatten".into());
     }
-    if matches!(f.ty, FTy::OptStr | FTy::OptU32 | FTy::OptVecU32 | FTy::OptRef(_)) {
+    if matches!(f.ty, FTy::OptStr | FTy::OptU32 | FTy::OptVecU32 | FTy::OptRef(_) | FTy::OptGeneric { .. }) {
         out.insert("option-field".into());
+    }
+    if matches!(f.ty, FTy::Generic { .. } | FTy::OptGeneric { .. }) {
+        out.insert("generic-helper-type".into());
     }
 }
 pub fn features(t: &TypeDef) -> BTreeSet<String> {
@@ -634,6 +727,9 @@ pub fn features(t: &TypeDef) -> BTreeSet<String> {
                     VKind::EmptyTuple => {
                         out.insert("empty-tuple-variant".into());
                     }
+                    VKind::Tuple { skipped, .. } => {
+                        out.insert(if skipped.is_some() { "tuple-variant-with-skipped-element".into() } else { "tuple-variant".into() });
+                    }
                 }
             }
         }
@@ -657,6 +753,9 @@ fn fty() -> impl Strategy<Value = FTy> {
         1 => Just(FTy::OptVecU32),
         2 => any::<u8>().prop_map(FTy::Ref),
         1 => any::<u8>().prop_map(FTy::OptRef),
+        2 => prop::sample::select(vec![FTy::I8, FTy::I16, FTy::I32, FTy::U16, FTy::U64, FTy::F32, FTy::Arr3]),
+        1 => (0u8..3, any::<u8>()).prop_map(|(which, arg)| FTy::Generic { which, arg }),
+        1 => (0u8..3, any::<u8>()).prop_map(|(which, arg)| FTy::OptGeneric { which, arg }),
     ]
 }
 fn field() -> impl Strategy<Value = FieldDef> {
@@ -664,13 +763,13 @@ fn field() -> impl Strategy<Value = FieldDef> {
 }
 fn typedef() -> impl Strategy<Value = TypeDef> {
     let case = prop::option::weighted(0.5, 0u8..8);
-    let variant = (0u8..6, prop::option::weighted(0.2, 0u8..6), prop_oneof![2 => Just(VKind::Unit), 2 => fty().prop_map(VKind::Newtype), 3 => vec(field(), 1..4).prop_map(VKind::Struct), 1 => Just(VKind::Struct(vec![])), 1 => Just(VKind::EmptyTuple)]).prop_map(|(name, rename, kind)| VariantDef { name, rename, kind });
+    let variant = (0u8..6, prop::option::weighted(0.2, 0u8..6), prop_oneof![2 => Just(VKind::Unit), 2 => fty().prop_map(VKind::Newtype), 3 => vec(field(), 1..4).prop_map(VKind::Struct), 1 => Just(VKind::Struct(vec![])), 1 => Just(VKind::EmptyTuple), 2 => (vec(fty(), 2..=3), prop::option::weighted(0.3, 0u8..3)).prop_map(|(elems, skipped)| VKind::Tuple { elems, skipped })]).prop_map(|(name, rename, kind)| VariantDef { name, rename, kind });
     let tagging = prop_oneof![Just(Tagging::External), Just(Tagging::Internal), Just(Tagging::Adjacent), Just(Tagging::Untagged)];
     let body = prop_oneof![
         6 => (vec(field(), 0..6), case.clone()).prop_map(|(fields, rename_all)| Body::Struct { fields, rename_all }),
         1 => fty().prop_map(Body::Newtype),
         1 => vec(fty(), 2..4).prop_map(Body::Tuple),
-        1 => (vec(fty(), 3), 0u8..3).prop_map(|(elems, skipped)| Body::TupleSkip { elems, skipped }),
+        2 => (vec(fty(), 2..=3), 0u8..3, prop::option::weighted(0.4, 0u8..3)).prop_map(|(elems, skipped, also)| Body::TupleSkip { elems, skipped, also }),
         1 => Just(Body::Unit),
         2 => (vec((0u8..6, prop::option::weighted(0.2, 0u8..6)), 1..5), case.clone(), prop_oneof![3 => Just(vec![]), 1 => vec(0u8..5, 1..3)]).prop_map(|(variants, rename_all, skip_de)| Body::UnitEnum { variants, rename_all, skip_de }),
         4 => (vec(variant, 1..4), tagging, case.clone(), prop::option::weighted(0.25, 0u8..8)).prop_map(|(variants, tagging, rename_all, rename_all_fields)| Body::Enum { variants, tagging, rename_all, rename_all_fields }),
@@ -772,6 +871,11 @@ fn drop_types(types: &[TypeDef], bad: &BTreeSet<usize>) -> Vec<Option<TypeDef>> 
             if let FTy::Ref(k) | FTy::OptRef(k) = ft {
                 v.push(*k as usize)
             }
+            if let FTy::Generic { arg, .. } | FTy::OptGeneric { arg, .. } = ft {
+                if *arg >= 2 {
+                    v.push(*arg as usize - 2)
+                }
+            }
         };
         match &t.body {
             Body::Struct { fields, .. } => fields.iter().for_each(|x| f(&x.ty)),
@@ -780,6 +884,7 @@ fn drop_types(types: &[TypeDef], bad: &BTreeSet<usize>) -> Vec<Option<TypeDef>> 
             Body::Enum { variants, .. } => variants.iter().for_each(|v| match &v.kind {
                 VKind::Newtype(ft) => f(ft),
                 VKind::Struct(fields) => fields.iter().for_each(|x| f(&x.ty)),
+                VKind::Tuple { elems, .. } => elems.iter().for_each(|x| f(x)),
                 _ => {}
             }),
             _ => {}
@@ -800,6 +905,11 @@ fn type_refs(t: &TypeDef) -> Vec<usize> {
         if let FTy::Ref(k) | FTy::OptRef(k) = ft {
             v.push(*k as usize)
         }
+        if let FTy::Generic { arg, .. } | FTy::OptGeneric { arg, .. } = ft {
+            if *arg >= 2 {
+                v.push(*arg as usize - 2)
+            }
+        }
     };
     match &t.body {
         Body::Struct { fields, .. } => fields.iter().for_each(|x| f(&x.ty)),
@@ -808,6 +918,7 @@ fn type_refs(t: &TypeDef) -> Vec<usize> {
         Body::Enum { variants, .. } => variants.iter().for_each(|v| match &v.kind {
             VKind::Newtype(ft) => f(ft),
             VKind::Struct(fields) => fields.iter().for_each(|x| f(&x.ty)),
+            VKind::Tuple { elems, .. } => elems.iter().for_each(|x| f(x)),
             _ => {}
         }),
         _ => {}
@@ -906,6 +1017,11 @@ impl Property for C16 {
                         if let FTy::Ref(k) | FTy::OptRef(k) = ft {
                             *k = new_index[&(*k as usize)] as u8
                         }
+                        if let FTy::Generic { arg, .. } | FTy::OptGeneric { arg, .. } = ft {
+                            if *arg >= 2 {
+                                *arg = new_index[&(*arg as usize - 2)] as u8 + 2
+                            }
+                        }
                     };
                     match &mut t.body {
                         Body::Struct { fields, .. } => fields.iter_mut().for_each(|f| remap(&mut f.ty, &new_index)),
@@ -914,6 +1030,7 @@ impl Property for C16 {
                         Body::Enum { variants, .. } => variants.iter_mut().for_each(|v| match &mut v.kind {
                             VKind::Newtype(ft) => remap(ft, &new_index),
                             VKind::Struct(fields) => fields.iter_mut().for_each(|f| remap(&mut f.ty, &new_index)),
+                            VKind::Tuple { elems, .. } => elems.iter_mut().for_each(|f| remap(f, &new_index)),
                             _ => {}
                         }),
                         _ => {}
